@@ -81,7 +81,7 @@ def all_sep_options():
 
 def run_shard(rec):
     quick = rec.tier == 'quick'
-    rec.deadline = time.time() + (60 if quick else 900)
+    rec.deadline = time.time() + (300 if quick else 900)
     maxlen = 5 if quick else 7
     # (the additional element / separator shapes were thorough-only at first; the whole workload takes
     # seconds, so both tiers use them and differ in input length only)
